@@ -67,6 +67,8 @@ At(m) == mode = m /\ stage = 9
 RelabelGivesSamePartition ==
   At("relabel") =>
                       /\ SamePartition(c, d) /\ SamePartition(d, c)
+                      /\ SamePartitionPairwise(c, d) /\ SamePartitionBySets(c, d)
+                      /\ SamePartitionBySets(d, c)
                       /\ IsRelabelling(c, d) /\ IsRelabelling(d, c)
                       /\ BlocksOf(c) = BlocksOf(d)
                       /\ IsRGS(c) /\ Canon(c) = c /\ Canon(d) = c
@@ -84,6 +86,10 @@ SamePartitionCharacterised ==
   At("pair") =>
                    LET s == SamePartition(c, d) IN
                    /\ s <=> (Canon(c) = Canon(d))
+                   (* the set form used for long vectors is the pairwise definition    *)
+                   /\ s <=> SamePartitionPairwise(c, d)
+                   /\ s <=> SamePartitionBySets(c, d)
+                   /\ s <=> SamePartitionBySets(d, c)
                    /\ s <=> IsRelabelling(c, d)
                    /\ s <=> (BlocksOf(c) = BlocksOf(d))
                    /\ s <=> SamePartition(d, c)
